@@ -3,7 +3,7 @@ CONSTANTS
  Neighbours <- NeighAll
  Spellings <- SpellAll
  Locations <- LocAll
- MaxBefore = 1
+ MaxBefore = 2
  MaxAfter = 1
  Thin = TRUE
  Stateful = FALSE
